@@ -55,6 +55,11 @@ CLAIMED["C04"] = ("static write-discipline analysis of scanner buffers (fresh-on
   "Assumes readers/callbacks do not re-enter the scanner. Does not decide that tokens are exactly the newline-delimited segments for every chunking.",
   "DESIGN.md §3 C04")
 
+CLAIMED["C06"] = ("static pairing and must-pass-through rules over go/cfg (semaphore release in deferred function, WaitGroup/close ordering, error branch passes incErrors), callback shape rule, discarded-error-result scan, expansion-loop path enumeration and value-flow of the walk callback, constant/guard rule for stdin, path enumeration of the exit-status function",
+  "Decides the resource and error clauses: slots and wait groups paired on every exit, every failure to open/follow/read an input counted (so the exit status becomes 2) and no error result silently dropped in the opening code, every path argument emitted/expanded/walked or reported, walked files reported under their own path, stdin named <stdin> under the documented condition, exit-status precedence on every path.",
+  "Trusts os/gzip/filepath. Does not decide gzip fidelity, once-per-mention for overlapping globs, nor errors of unreadable directories during a recursive walk (dropped by the code; reviewed limitation).",
+  "DESIGN.md §3 C06")
+
 PENDING_REASON = "static check for this property is designed in DESIGN.md §3 but not yet built in this revision of /verif; not claimed until it runs"
 
 def main():
